@@ -21,7 +21,8 @@
 // tags = hexk:hexv joined by ',' ("-" none).  auth = "-" (nil), "open" (query.OpenAuthorizer) or
 // deny rules joined by ',': T:<hexk>:<hexv> (series having that tag pair), M:<hexname>.
 // cond = "-" (nil) or prefix form: A | O | E:<hexkey>:<hexval> | N:<hexkey>:<hexval>
-// (key = 'val' / key != 'val' with a string literal; keys _name, _tagKey, value are the system names).
+// (key = 'val' / key != 'val' with a string literal; keys _name, _tagKey, value are the system names);
+// mn conditions also R:<hexkey>:<hexv1>+<hexv2>.. (key =~ /^(?:v1|v2|..)$/) and NR:.. (key !~ ..).
 package storeh
 
 import (
@@ -31,6 +32,7 @@ import (
 	"fmt"
 	"os"
 	"path/filepath"
+	"regexp"
 	"sort"
 	"strings"
 	"time"
@@ -324,6 +326,33 @@ func parseCond(items []string, i *int) influxql.Expr {
 			op = influxql.OR
 		}
 		return &influxql.BinaryExpr{Op: influxql.Token(op), LHS: l, RHS: r}
+	case strings.HasPrefix(it, "R:") || strings.HasPrefix(it, "NR:"):
+		// R:<hexkey>:<hexv1>+<hexv2>…  =  key =~ /^(?:v1|v2|…)$/ ;  NR = !~
+		f := strings.Split(it, ":")
+		if len(f) != 3 {
+			return nil
+		}
+		k, err := h.UnHex(f[1])
+		if err != nil {
+			return nil
+		}
+		var alts []string
+		for _, hv := range strings.Split(f[2], "+") {
+			v, err := h.UnHex(hv)
+			if err != nil || len(v) == 0 {
+				return nil
+			}
+			alts = append(alts, regexp.QuoteMeta(string(v)))
+		}
+		re, err := regexp.Compile("^(?:" + strings.Join(alts, "|") + ")$")
+		if err != nil {
+			return nil
+		}
+		op := influxql.EQREGEX
+		if f[0] == "NR" {
+			op = influxql.NEQREGEX
+		}
+		return &influxql.BinaryExpr{Op: influxql.Token(op), LHS: &influxql.VarRef{Val: string(k)}, RHS: &influxql.RegexLiteral{Val: re}}
 	case strings.HasPrefix(it, "E:") || strings.HasPrefix(it, "N:"):
 		f := strings.Split(it, ":")
 		if len(f) != 3 {
@@ -346,6 +375,17 @@ func parseCond(items []string, i *int) influxql.Expr {
 // reservedKey: system names (a leading '_', except _name where allowed), the pseudo key "value", "".
 func reservedKey(allowName bool, k string) bool {
 	return (strings.HasPrefix(k, "_") && !(allowName && k == "_name")) || k == "value" || k == ""
+}
+
+// hasRegex: the condition has a regular-expression leaf (only MeasurementNames conditions may)
+func hasRegex(e influxql.Expr) bool {
+	found := false
+	influxql.WalkFunc(e, func(n influxql.Node) {
+		if _, ok := n.(*influxql.RegexLiteral); ok {
+			found = true
+		}
+	})
+	return found
 }
 
 func condKeysOK(e influxql.Expr, allowName bool) bool {
@@ -610,7 +650,7 @@ func (r *Runner) Op(t []string) string {
 		nc, ok2 := parseClause(t[3], "_name")
 		kc, ok3 := parseClause(t[4], "_tagKey")
 		f, ok4 := ParseCond(t[5])
-		if !ok0 || !ok1 || !ok2 || !ok3 || !ok4 || len(ids) == 0 || (f != nil && !condKeysOK(f, false)) {
+		if !ok0 || !ok1 || !ok2 || !ok3 || !ok4 || len(ids) == 0 || (f != nil && (!condKeysOK(f, false) || hasRegex(f))) {
 			return "bad-op"
 		}
 		any := false
